@@ -35,13 +35,13 @@ META = {
              "outputs, with the 'no start' / 'out of sequence' warnings exactly where the reference drops.  In addition an INDUCTIVE STEP "
              "(checks/induct12.py): the body of the packet loop, lifted from the function's AST, is run from an arbitrary segment table (up to 3 stored "
              "segments for each of 2 APIDs) with an arbitrary incoming packet, and z3 proves outputs, warnings and the NEW TABLE equal the reference "
-             "transition - which extends the result to histories of any length.",
+             "transition - which extends the result to histories of any length.  A two-sources job feeds the SAME definition two streams one after the other (cut at every packet boundary) and proves that an open group of the first never leaks into the second.",
     "trusted": "z3; BV proxies; dict lookup by a symbolic APID = pick of a feasible value; cross-validated on every path against the unpatched "
                "generator; the reference state machine (Appendix A of DESIGN.md) is my reading of the property",
     "bounds": {"quick": {"K": 4, "APIDs": 2, "secondary_header_bytes": "0..7 (longer than the shorter data fields)", "data bytes per packet": "3..6"},
                "thorough": {"K/APIDs": "5/2 and 4/3", "secondary_header_bytes": "0..7 (longer than the shorter data fields)", "data bytes per packet": "3..7"}},
     "stubs": ["warnings.warn recorded (category + message prefix)", "dict[key] with a symbolic APID key: pick"],
-    "outside_claim": ["histories longer than K", "more than 3 APIDs"],
+    "outside_claim": ["histories longer than K (except through the inductive step)", "more than 3 APIDs"],
     "assumptions": ["packets in the stream are well-formed (length fields concrete and consistent)"],
 }
 
@@ -110,18 +110,30 @@ class Segments(Harness):
         K, A = self.job["params"]["K"], self.job["params"]["A"]
         s = choose(ctx, "s", 8)
         stream, pk = build_stream(ctx, K, A)
-        gen = self.definition.packet_generator(stream, combine_segmented_packets=True, secondary_header_bytes=s)
-        out = []
-        try:
-            for p in gen:
-                out.append(p)
-                if len(out) > K + 1:
-                    break
-            end = "stop"
-        except Exception as e:    # noqa: BLE001 - library outcome
-            end = "exc:" + type(e).__name__
+        cut = None
+        if self.job["params"].get("two_calls"):
+            # the SAME definition object serves two sources one after the other (the first one may end inside a group): an open group of
+            # the first source must not leak into the second
+            cut = 1 + choose(ctx, "cut", K - 1)
+            at = pk[cut]["start"]
+            parts = [(bv.SymBytes(stream.items[:at]), pk[:cut]), (bv.SymBytes(stream.items[at:]), pk[cut:])]
+        else:
+            parts = [(stream, pk)]
+        out, want, want_warn, end = [], [], [], "stop"
+        for part, ppk in parts:
+            gen = self.definition.packet_generator(part, combine_segmented_packets=True, secondary_header_bytes=s)
+            try:
+                for p in gen:
+                    out.append(p)
+                    if len(out) > K + 1:
+                        break
+            except Exception as e:    # noqa: BLE001 - library outcome
+                end = "exc:" + type(e).__name__
+                break
+            w, ww = reference(ctx, ppk, s)
+            want += w
+            want_warn += ww
         got_warn = [("nostart" if m.startswith(W_NOSTART) else "gap") for (_, m) in ctx.warnings if m.startswith(W_NOSTART) or m.startswith(W_GAP)]
-        want, want_warn = reference(ctx, pk, s)
         obl = [("no exception", end == "stop"), ("number of outputs", len(out) == len(want)), ("warnings", got_warn == want_warn)]
         got_items = []
         for i, (g, w) in enumerate(zip(out, want)):
@@ -133,7 +145,7 @@ class Segments(Harness):
             obl.append((f"output {i} bytes", z3.And([bv.byte_term(x) == bv.byte_term(y) for x, y in zip(gi, w)] + [z3.BoolVal(True)])))
         observe = {"outputs": [bv.SymBytes(g.raw_data.items) for g in out if hasattr(g, "raw_data")], "warnings": got_warn, "end": end, "cls": "ran"}
         spec = {"outputs": [bv.SymBytes(w) for w in want], "warnings": want_warn, "end": "stop"}
-        return result(f"{len(want)}out/{len(want_warn)}warn", obl, observe=observe, spec=spec, inputs={"stream": stream, "s": s, "K": K})
+        return result(f"{len(want)}out/{len(want_warn)}warn", obl, observe=observe, spec=spec, inputs={"stream": stream, "s": s, "K": K, "cut": None if cut is None else pk[cut]["start"]})
 
 
 class Twin(Segments):
@@ -161,7 +173,9 @@ def jobs(tier):
         cfgs = [(5, 2), (4, 3)]
     from checks import induct12
     return [{"name": f"K{K}-A{A}", "h": "seg", "params": {"K": K, "A": A}, "split": 16, "chunk": 40, "max_paths": 400000,
-             "must_reach": ["1out/0warn", "0out/1warn", "2out/0warn"]} for K, A in cfgs] + induct12.jobs(tier)
+             "must_reach": ["1out/0warn", "0out/1warn", "2out/0warn"]} for K, A in cfgs] + induct12.jobs(tier) + [
+        {"name": "two-calls-K3", "h": "seg", "params": {"K": 3 if tier == "quick" else 4, "A": 1 if tier == "quick" else 2, "two_calls": True}, "split": 16, "chunk": 40,
+         "max_paths": 400000, "must_reach": ["0out/1warn", "1out/0warn"]}]
 
 
 def vacuity_jobs():
@@ -178,11 +192,13 @@ def concrete(req):
     outs, end = [], "stop"
     with warnings.catch_warnings(record=True) as rec:
         warnings.simplefilter("always")
+        cut = i.get("cut")
         try:
-            for p in d.packet_generator(stream, combine_segmented_packets=True, secondary_header_bytes=i["s"]):
-                outs.append({"hex": bytes(p.raw_data).hex()})
-                if len(outs) > i["K"] + 1:
-                    break
+            for part in ([stream] if cut is None else [stream[:cut], stream[cut:]]):
+                for p in d.packet_generator(part, combine_segmented_packets=True, secondary_header_bytes=i["s"]):
+                    outs.append({"hex": bytes(p.raw_data).hex()})
+                    if len(outs) > i["K"] + 1:
+                        break
         except Exception as e:   # noqa: BLE001
             end = "exc:" + type(e).__name__
     ws = []
@@ -207,7 +223,11 @@ def judge(req, got):
         pk.append(stream[o:o + n])
         o += n
     state, outs, warns = {}, [], []
+    cut, o = i.get("cut"), 0
     for p in pk:
+        if cut is not None and o == cut:
+            state = {}             # second generator call: nothing of the first source is remembered
+        o += len(p)
         apid = ((p[0] & 7) << 8) | p[1]
         flags, seq = p[2] >> 6, ((p[2] & 0x3F) << 8) | p[3]
         if flags == 3:
@@ -227,11 +247,11 @@ def judge(req, got):
                 warns.append("gap")
     want = [{"hex": x.hex()} for x in outs]
     if got["end"] != "stop":
-        return "reproduced", f"stream {stream.hex()} s={s}: generator ended with {got['end']}"
+        return "reproduced", f"stream {stream.hex()} s={s}{'' if cut is None else f' fed as two sources cut at byte {cut}'}: generator ended with {got['end']}"
     if got["outputs"] != want:
-        return "reproduced", f"stream {stream.hex()} s={s}: expected outputs {[x['hex'] for x in want]}, got {[x['hex'] for x in got['outputs']]}"
+        return "reproduced", f"stream {stream.hex()} s={s}{'' if cut is None else f' fed as two sources cut at byte {cut}'}: expected outputs {[x['hex'] for x in want]}, got {[x['hex'] for x in got['outputs']]}"
     if got["warnings"] != warns:
-        return "reproduced", f"stream {stream.hex()} s={s}: expected warnings {warns}, got {got['warnings']}"
+        return "reproduced", f"stream {stream.hex()} s={s}{'' if cut is None else f' fed as two sources cut at byte {cut}'}: expected warnings {warns}, got {got['warnings']}"
     return "not-reproduced", "agrees with the reference state machine"
 
 
